@@ -30,7 +30,7 @@ OCfgSet(_z) ==
 GoodCfg(c) == c.mode # "custom" \/ \A r \in 1 .. Len(c.table) : Len(c.table[r]) = NumEnabled(c.params)
 
 MCInit == \E c \in OCfgSet(0) : GoodCfg(c) /\ NumEnabled(c.params) >= 1 /\ OInitWith(c)
-MCSpec == MCInit /\ [][ONext]_ovars
+MCSpec == MCInit /\ [][ONext \/ Rerun]_ovars
 
 ExportSample(_z) ==
   LET s == SetToSeq({ c \in OCfgSet(0) : GoodCfg(c) /\ NumEnabled(c.params) >= 1 })
